@@ -133,9 +133,14 @@ def converse(path, home, sock_uid, cmds, server_user='root'):
                     h = h + 'zz' if h else 'z'
                 text += b' ' + h.encode()
         elif k == 'data':
-            if cm.get('resp') and last_data and cm.get('cookie'):
+            challenge = bytes.fromhex(last_data.split(' ', 1)[1]).decode('latin-1') if ' ' in last_data else ''
+            if cm.get('resp') and cm.get('cookie') and len(challenge.split(' ')) == 3:
                 text = cookie_response(home, last_data, cm['respkind'])
             else:
+                # (no cookie challenge is outstanding -- e.g. the AUTH that should have produced it was refused: the
+                # command is then an ordinary DATA carrying the identity named in the record)
+                r['cookie'] = 0
+                r['resp'] = 'wrong'
                 ident = {'same': str(sock_uid), 'other': '4242', 'garbage': 'x y!z', 'empty': ''}[cm['who']]
                 h = ident.encode().hex()
                 if cm['hex'] == 'bad':
